@@ -1,7 +1,7 @@
 (** C13 — Minimize, part 2: one round of partition refinement; the partition on which the loop
     stops is good and stable. *)
 From Coq Require Import ZArith List Bool Lia Sorted.
-From Algo.C13 Require Import Model Spec Lemmas ProofsNFA ProofsDFA ProofsElim ProofsSubset ProofsMinQuot.
+From Algo.C13 Require Import Model Spec Lemmas ProofsNFA ProofsDFA ProofsElim ProofsSubset ProofsSubsetTerm ProofsMinQuot.
 Import ListNotations.
 Open Scope Z_scope.
 
@@ -191,7 +191,12 @@ Record qinv (p : partition) (d : dfa) (done cdone : list (list Z * Z)) (q : part
   q_reps : forall H r, In (H, r) (pgroups q) -> 0 <= r < pnext q;
   q_inj : forall H r H' r', In (H, r) (pgroups q) -> In (H', r') (pgroups q) -> r = r' -> H = H';
   q_next : 0 <= pnext q;
-  q_cover : forall G rg x, In (G, rg) cdone -> In x G -> exists H r, In (H, r) (pgroups q) /\ In x H }.
+  q_cover : forall G rg x, In (G, rg) cdone -> In x G -> exists H r, In (H, r) (pgroups q) /\ In x H;
+  q_full : forall H r, In (H, r) (pgroups q) ->
+     exists G rg s0, In (G, rg) done /\ In s0 H /\ In s0 G /\
+       forall x sg, In (x, sg) (tl (build_group_trans p d G)) -> sigeq (sig p d s0) sg = true -> In x H;
+  q_nodup : NoDup (map snd (pgroups q));
+  q_len : pnext q = Z.of_nat (length (pgroups q)) }.
 
 Lemma padd_groups : forall q H, (forall H' r', In (H', r') (pgroups q) -> sequal H' H = false) ->
   pgroups (padd q H) = pgroups q ++ [(H, pnext q)] /\ pnext (padd q H) = pnext q + 1.
@@ -233,7 +238,7 @@ Section Round.
         apply IH; [now rewrite <- app_assoc|].
         assert (Hsin : In (s, sg) gt) by (rewrite Hgt; apply in_or_app; right; now left).
         apply bgt_In in Hsin. destruct Hsin as [HsG ->].
-        destruct Hinv as [[D1 D2 D3 D4 D5 D6] Hold Hpre Hfull Hdc Hod].
+        destruct Hinv as [[D1 D2 D3 D4 D5 D6 D7 D8 D9] Hold Hpre Hfull Hdc Hod].
         unfold paa_step. simpl. destruct (prep q s =? -1) eqn:Ep.
         + apply Z.eqb_eq in Ep.
           assert (Hnone : forall H r, In (H, r) (pgroups q) -> ~ In s H).
@@ -299,6 +304,13 @@ Section Round.
             -- rewrite En. lia.
             -- intros G' rg' x Hd Hx. destruct (D6 G' rg' x Hd Hx) as (H & r & Hin & HxH).
                exists H, r. split; [rewrite Eg; apply in_or_app; now left | exact HxH].
+            -- intros H r Hin. rewrite Eg in Hin. apply in_app_or in Hin. destruct Hin as [Hin|[Hin|[]]].
+               ++ apply (D7 H r Hin).
+               ++ inversion Hin; subst. exists G, rg, s. split; [now left|]. split; [apply HcIn; now left|].
+                  split; [exact HsG|]. intros x sgx Hx Hse. apply HcIn. right. eauto.
+            -- rewrite Eg, map_app. simpl. apply NoDup_snoc; [exact D8|]. intros Hin. apply in_map_iff in Hin.
+               destruct Hin as [[H' r'] [Hr' Hin']]. simpl in Hr'. subst r'. specialize (D3 H' _ Hin'). lia.
+            -- rewrite Eg, En, app_length, D9. simpl. lia.
           * intros e He. rewrite Eg. apply in_or_app. left. now apply Hold.
           * intros s' Hs'. rewrite map_app in Hs'. apply in_app_or in Hs'. destruct Hs' as [Hs'|[<-|[]]].
             -- destruct (Hpre s' Hs') as (H & r & Hin & HsH). exists H, r. split; [rewrite Eg; apply in_or_app; now left | exact HsH].
@@ -330,9 +342,11 @@ Section Round2.
 
   Lemma qinv_mono : forall done q G rg, qinv p d done done q -> qinv p d ((G, rg) :: done) done q.
   Proof.
-    intros done q G rg [D1 D2 D3 D4 D5 D6]. split; auto.
-    intros H r Hin. destruct (D1 H r Hin) as [Hnd (G' & rg' & s0 & Hd & Hs & Hall)].
-    split; [exact Hnd|]. exists G', rg', s0. split; [now right|]. auto.
+    intros done q G rg [D1 D2 D3 D4 D5 D6 D7 D8 D9]. split; auto.
+    - intros H r Hin. destruct (D1 H r Hin) as [Hnd (G' & rg' & s0 & Hd & Hs & Hall)].
+      split; [exact Hnd|]. exists G', rg', s0. split; [now right|]. auto.
+    - intros H r Hin. destruct (D7 H r Hin) as (G' & rg' & s0 & Hd & Hrest).
+      exists G', rg', s0. split; [now right | exact Hrest].
   Qed.
 
   Lemma round_fold : forall rest done q,
@@ -357,7 +371,7 @@ Section Round2.
         - intros G' r' x Hin Hx. apply (q_cover _ _ _ _ _ Hinv G' r' x Hin Hx).
         - intros H r Hin. destruct (q_desc _ _ _ _ _ Hinv H r Hin) as [_ (G' & rg' & s0 & Hdn & _ & Hall)].
           exists G', rg'. split; [exact Hdn|]. intros x Hx. apply (Hall x Hx). }
-      specialize (HP Hinit). destruct HP as [[D1 D2 D3 D4 D5 D6] Hold Hpre Hfull Hdc Hod].
+      specialize (HP Hinit). destruct HP as [[D1 D2 D3 D4 D5 D6 D7 D8 D9] Hold Hpre Hfull Hdc Hod].
       split; auto. intros G' rg' x [Hin|Hin] Hx.
       + inversion Hin; subst. apply Hpre. apply in_map_iff. exists (x, sig p d x). split; [reflexivity|].
         apply bgt_In. auto.
@@ -367,7 +381,7 @@ Section Round2.
   Definition round : partition := fold_left round_step (pgroups p) pnew.
 
   Lemma qinv_pnew : qinv p d [] [] pnew.
-  Proof. split; simpl; try contradiction; try lia; intros; contradiction. Qed.
+  Proof. split; simpl; try contradiction; try lia; try constructor; intros; contradiction. Qed.
 
   Lemma round_inv : qinv p d (rev (pgroups p)) (rev (pgroups p)) round.
   Proof.
@@ -377,7 +391,7 @@ Section Round2.
 
   Lemma round_good : pgood d round.
   Proof.
-    destruct round_inv as [D1 D2 D3 D4 D5 D6]. split.
+    destruct round_inv as [D1 D2 D3 D4 D5 D6 D7 D8 D9]. split.
     - intros x Hx. destruct (pg_cover d p Hg x Hx) as (G & r & Hin & HxG).
       apply (D6 G r x); [now apply -> in_rev | exact HxG].
     - exact D2.
@@ -387,13 +401,14 @@ Section Round2.
     - exact D3.
     - intros H r x Hin Hx. destruct (D1 H r Hin) as [_ (G & rg & s0 & Hd & _ & Hall)].
       apply in_rev in Hd. apply (pg_sub d p Hg G rg x Hd). apply (Hall x Hx).
+    - exact D8.
   Qed.
 
   Lemma round_stable : pequal round p = true -> pstable d p.
   Proof.
     intros He. unfold pequal in He. apply andb_true_iff in He. destruct He as [He _].
     apply andb_true_iff in He. destruct He as [_ He]. rewrite forallb_forall in He.
-    destruct round_inv as [D1 D2 D3 D4 D5 D6].
+    destruct round_inv as [D1 D2 D3 D4 D5 D6 D7 D8 D9].
     intros G r x y a t HG Hx Hy Hedge.
     destruct (D6 G r x (proj1 (in_rev _ _) HG) Hx) as (H & rh & HinH & HxH).
     destruct (D1 H rh HinH) as [_ (G1 & rg1 & s0 & Hd1 & Hs0 & Hall)]. apply in_rev in Hd1.
@@ -419,6 +434,31 @@ Section Round2.
 End Round2.
 
 (** ** the loop *)
+Lemma initial_partition_groups : forall d,
+  pgroups (padd (padd pnew (sdiff (dstates d) (dfinal d))) (dfinal d)) = [(sdiff (dstates d) (dfinal d), 0); (dfinal d, 1)] /\
+  pnext (padd (padd pnew (sdiff (dstates d) (dfinal d))) (dfinal d)) = 2.
+Proof.
+  intros d. set (NF := sdiff (dstates d) (dfinal d)). set (F := dfinal d).
+  assert (E1 : pgroups (padd pnew NF) = [(NF, 0)] /\ pnext (padd pnew NF) = 1).
+  { destruct (padd_groups pnew NF) as [H1 H2]; [intros H' r' []|]. simpl in *. auto. }
+  destruct E1 as [E1 E1n].
+  assert (Hne : sequal NF F = false).
+  { destruct (sequal NF F) eqn:E; [|reflexivity]. exfalso.
+    unfold sequal in E. apply andb_true_iff in E. destruct E as [Hl Hs]. apply Nat.eqb_eq in Hl.
+    rewrite forallb_forall in Hs.
+    assert (HNF : NF = []).
+    { destruct NF as [|z r] eqn:EN; [reflexivity|]. exfalso.
+      assert (Hz : In z (sdiff (dstates d) (dfinal d))) by (fold NF; rewrite EN; now left).
+      apply In_sdiff in Hz. destruct Hz as [_ Hz]. apply Hz. apply smem_In, Hs. now left. }
+    rewrite HNF in Hl. simpl in Hl. destruct F as [|f r] eqn:EF; [|discriminate].
+    assert (Hst : In (dstart d) NF).
+    { apply In_sdiff. split; [apply dstart_in_dstates|]. fold F. rewrite EF. intros []. }
+    rewrite HNF in Hst. destruct Hst. }
+  destruct (padd_groups (padd pnew NF) F) as [H1 H2].
+  - intros H' r' Hin. rewrite E1 in Hin. destruct Hin as [Hin|[]]. inversion Hin; subst. exact Hne.
+  - rewrite E1, E1n in *. simpl in *. auto.
+Qed.
+
 Lemma initial_partition_good : forall d,
   pgood d (padd (padd pnew (sdiff (dstates d) (dfinal d))) (dfinal d)).
 Proof.
@@ -457,6 +497,7 @@ Proof.
   - intros G r x [H|[H|[]]] Hx; inversion H; subst.
     + apply In_sdiff in Hx. tauto.
     + now apply dfinal_in_dstates.
+  - simpl. constructor; [intros [H|[]]; discriminate|]. constructor; [intros []|constructor].
 Qed.
 
 Lemma refine_step_eq : forall d p, refine_step d p = if pequal (round p d) p then Done p else More (round p d).
